@@ -79,3 +79,8 @@ def shape_key(case, results):
             t = r.req.split()
             return "store-" + t[1] + "-" + "-".join(f for f in r.flags if f.startswith("plan-") or f in ("owned-multi",))
     return "none"
+
+SOURCE_TIE = "Source-level tie by proof (Tie/Track, Tie/StoreCmd): Track::distances and the Distances command of the store worker, regenerated from the source, equal the model's distances / distPair / queryOne per shard."
+LEVEL_TEXT = LEVEL_TEXT + " " + SOURCE_TIE
+TRUSTED_BASE = TRUSTED_BASE + ["translator/kernels.py + rustexpr.py (reader of the Rust subset, per-function tables) for the functions named in SOURCE_TIE; generated definitions are proof obligations (Tie modules) on every run"]
+TECHNIQUE = TECHNIQUE + "; model regenerated from the source by a translator for the functions of SOURCE_TIE, tied by proof"
